@@ -23,3 +23,20 @@ Print Assumptions c01_unary_response_bound.
 Theorem c01_data_invariant : forall sc s, Reach sc s -> Data sc s.
 Proof. exact data_inv. Qed.
 Print Assumptions c01_data_invariant.
+
+(* ---- nothing is dropped: fault-free calls (no context event, no adapter failure, a conformant target whose first
+   non-message item is (tn, thc, tt): it waits for tn requests and, if thc, for the half-close) ---- *)
+From GB Require Import Proofs.ForwardCompleteProofs.
+
+(* under ANY schedule, a returned fault-free call reports exactly the target's final status, has delivered exactly ALL of
+   the target's response messages (in order, by c01_responses_prefix), and has satisfied what the final item waited for *)
+Theorem c01_fault_free_complete : forall sc tn thc tt, FF sc tn thc tt -> forall s r, Reach sc s -> mp s = MRet r ->
+  r = exp_res tt /\ sent_in s = out_msgs (out_recv sc) /\ (tn <= length (sent_out s))%nat /\ (thc = true -> (0 < close_send s)%nat).
+Proof. exact fault_free_complete. Qed.
+Print Assumptions c01_fault_free_complete.
+
+(* ... so a target that ends the call only after the whole request stream has received exactly the client's messages *)
+Theorem c01_fault_free_requests_complete : forall sc tn thc tt, FF sc tn thc tt -> forall s r, Reach sc s -> mp s = MRet r ->
+  tn = length (in_msgs (in_recv sc)) -> sent_out s = in_msgs (in_recv sc).
+Proof. exact fault_free_requests_complete. Qed.
+Print Assumptions c01_fault_free_requests_complete.
